@@ -83,6 +83,9 @@ def run(ctx):
     with ctx.rule("C14.R3b", "T7", "a record popped from a supply uplink is always sent: the 'send the value' flag of ValueSynced is exactly has_data()", floor=5) as r:
         uplinks.no_data_no_event(r, ctx)
 
+    with ctx.rule("C14.R3c", "T4", "items queued for a remote are discarded only when its unlink is accepted, not when a queued unlink is written", floor=4) as r:
+        uplinks.uplink_state_lifetime(r, ctx)
+
     with ctx.rule("C14.R4", "T6+T7", "CommandOutput: only an overwritable trailing record can be superseded; write hands over exactly the pending records", floor=7) as r:
         CO = "external_links::CommandOutput"
         ap = ctx.saw(rt.fn(name="append", self_adt=CO))
